@@ -54,6 +54,20 @@ pub(crate) fn data_size() -> usize {
     n
 }
 
+/// Number of linked, non-empty data files.
+pub(crate) fn nonempty_data_files() -> usize {
+    let fs = mfs::__fs();
+    let mut n = 0;
+    let mut id = 0;
+    while id < mfs::NID {
+        if fs.inodes[dslot(id)].linked && fs.inodes[dslot(id)].len > 0 {
+            n += 1;
+        }
+        id += 1;
+    }
+    n
+}
+
 /// Ground truth for one data file, computed by the harness from the bytes in the model file system
 /// and the real index: (records, live, dead, dead_bytes, length of the last record).
 pub(crate) fn ground_truth(ctx: &Context, id: usize) -> (u64, u64, u64, u64, usize) {
@@ -178,6 +192,23 @@ impl<const F: u32> Sc<F> {
         must(self.s.w.merge());
         if F & CHK_SIZES != 0 {
             assert!(data_size() <= before, "[C13] a merge pass increased the total size of the data files");
+            // thresholds T_ALL make every data file that holds an entry eligible: the store must then be
+            // exactly as large as a fresh store holding the live pairs (each once, nothing dead kept)
+            if self.thr.1 == u64::MAX && self.thr.2 == u64::MAX {
+                let live = (self.m[0].is_some() as usize) + (self.m[1].is_some() as usize);
+                assert!(data_size() == live * DATA_PUT_LEN, "[C13] after a merge of every data file the store is not exactly as large as the live key-value pairs");
+            }
+        }
+        self.after();
+    }
+    /// C13: a second merge with the same thresholds changes nothing further (sizes of the data files).
+    pub fn merge_again(&mut self) {
+        let before = data_size();
+        let nfiles = nonempty_data_files();
+        must(self.s.w.merge());
+        if F & CHK_SIZES != 0 {
+            assert!(data_size() == before, "[C13] repeating a merge changed the total size of the data files");
+            assert!(nonempty_data_files() == nfiles, "[C13] repeating a merge changed the number of non-empty data files");
         }
         self.after();
     }
@@ -357,6 +388,38 @@ pub(crate) fn shape_7<const F: u32>() {
     sc.finish();
 }
 
+/// S10: partial selection.  An older file holding only a tombstone (dead bytes > 0: eligible) and a
+/// newer clean file holding a live value (not eligible): the merge must rewrite the eligible file
+/// only - what is live in a file it leaves alone must not be copied (the store would grow).
+pub(crate) fn shape_10<const F: u32>() {
+    let mut m: Model = [None, None];
+    mfs::__preexisting(dslot(0));
+    mfs::__preexisting(dslot(1));
+    let vb: u8 = kani::any();
+    lay_data(dslot(0), 0, K[0], None);
+    lay_data(dslot(1), 0, K[1], Some(vb));
+    m[1] = Some(vb);
+    let mut sc = Sc::<F>::open(m, u64::MAX, false, T_DEAD);
+    sc.merge();
+    kani::cover!(!mfs::__fs().inodes[dslot(0)].linked && mfs::__fs().inodes[dslot(1)].linked, "the older file was merged, the newer one left alone");
+    if F & CHK_SIZES != 0 {
+        assert!(data_size() == DATA_PUT_LEN, "[C13] a merge kept dead data of an eligible file or copied live data of a file it left alone");
+    }
+    sc.finish();
+}
+
+/// S11: empty directory; put a, put b, del a; merge of everything; the same merge again (idempotence).
+pub(crate) fn shape_11<const F: u32>() {
+    let m: Model = [None, None];
+    let mut sc = Sc::<F>::open(m, u64::MAX, false, T_ALL);
+    sc.put(0);
+    sc.put(1);
+    sc.del(0);
+    sc.merge();
+    sc.merge_again();
+    sc.finish();
+}
+
 // ------------------------------------------------------------------------------------------------
 // Crash (C03), power loss (C09) and fault (C20) machinery.
 
@@ -418,7 +481,7 @@ pub(crate) fn recover_and_check(h: &Hist, init: Model, power_loss: bool, tag_cra
     mfs::__install_snapshot();
     let fs = mfs::__fs();
     fs.crash_at = usize::MAX;
-    let (keydir, stats, _active) = match rebuild_storage("d") {
+    let (keydir, stats, active) = match rebuild_storage("d") {
         Ok(x) => x,
         Err(_) => {
             if tag_crash {
@@ -429,6 +492,24 @@ pub(crate) fn recover_and_check(h: &Hist, init: Model, power_loss: bool, tag_cra
             loop {}
         }
     };
+    // The store that opens this directory writes into a NEW file `active`.  Recovery prefers a hint
+    // file over the data file of the same id, so a left-over file of either kind with an id >= `active`
+    // would shadow (or be mistaken for) what is acknowledged after the restart: the directory the
+    // kill leaves behind must not contain one.
+    {
+        let fs = mfs::__fs();
+        let mut id = 0;
+        while id < mfs::NID {
+            if fs.inodes[dslot(id)].linked || fs.inodes[hslot(id)].linked {
+                if tag_crash {
+                    assert!((id as u64) < active, "[C03] after a kill the recovery reuses the id of a file that is still in the directory (a left-over hint file would hide later acknowledged writes)");
+                } else {
+                    assert!((id as u64) < active, "[C09] after a power loss the recovery reuses the id of a file that is still in the directory");
+                }
+            }
+            id += 1;
+        }
+    }
     let mut ki = 0;
     while ki < 2 {
         let got = read_via(&keydir, K[ki]);
@@ -656,13 +737,25 @@ pub(crate) fn fault_restart(sc: Sc<0>, undetermined: [Option<(Option<u8>, Option
     sc.finish();
     mfs::__fs().fail_at = usize::MAX;
     mfs::__fs().fail_next_write_slot = usize::MAX;
-    let (keydir, stats, _a) = match rebuild_storage("d") {
+    let (keydir, stats, active) = match rebuild_storage("d") {
         Ok(x) => x,
         Err(_) => {
             assert!(false, "[C20] the directory cannot be opened after a failed disk operation");
             loop {}
         }
     };
+    // as after a kill: no left-over file (of either kind) may carry the id the restarted store is
+    // about to write into - recovery prefers a hint file over the data file of the same id
+    {
+        let fs = mfs::__fs();
+        let mut id = 0;
+        while id < mfs::NID {
+            if fs.inodes[dslot(id)].linked || fs.inodes[hslot(id)].linked {
+                assert!((id as u64) < active, "[C20] after a failed disk operation the restarted store reuses the id of a file that is still in the directory (a left-over hint file would hide later acknowledged writes)");
+            }
+            id += 1;
+        }
+    }
     let mut ki = 0;
     while ki < 2 {
         let got = read_via(&keydir, K[ki]);
@@ -767,6 +860,30 @@ pub(crate) fn fault_shape_m0(at: usize, mode: u8) {
     sc.finish();
 }
 
+/// Fault shape M5: empty directory, every write rolls over; put a with the fault at call `at` of that
+/// put (1 = the creation of the next active file: the entry is in the file, the put reports an
+/// error and the index does not know the key); then an acknowledged delete of `a`; restart.  The
+/// deleted key must stay deleted: the delete has to reach the disk whatever the index says.
+pub(crate) fn fault_shape_m5(at: usize, mode: u8) {
+    let init: Model = [None, None];
+    let mut sc = Sc::<0>::open(init, 0, false, T_NONE);
+    arm_fault(at, mode, 3);
+    let va: u8 = kani::any();
+    let r = sc.s.w.put(kb(K[0]), kb(va));
+    assert!(mfs::__fs().fail_hit, "harness: the fault was not injected into the first put");
+    assert!(r.is_err(), "[C20] a file-system call failed on behalf of a put, yet the put reported success");
+    std::mem::forget(r);
+    let r2 = sc.s.w.delete(kb(K[0]));
+    assert!(r2.is_ok(), "[C20] an operation failed although no fault was injected into it");
+    std::mem::forget(r2);
+    match sc.s.r.get(kb(K[0])) {
+        Ok(g) => assert!(v1(&g) == None, "[C20] an acknowledged delete after a failed put does not read back"),
+        Err(_) => assert!(false, "[C20] a key cannot be read after an acknowledged delete"),
+    }
+    sc.m[0] = None;
+    fault_restart(sc, [None, None]);
+}
+
 /// Minimal fault shape M1 (quick tier): empty directory, every write rolls over; put a, put b, restart.
 /// Calls after the open: 0 write(a) 1 create 2 write(b) 3 create.
 pub(crate) fn fault_shape_m1(at: usize, mode: u8) {
@@ -792,6 +909,67 @@ pub(crate) fn fault_shape_m2(at: usize, mode: u8) {
     let ub = faulty_put(&mut sc, 1);
     kani::cover!(mfs::__fs().fail_hit, "the fault was injected");
     fault_restart(sc, [None, ub]);
+}
+
+/// Fault shape M3: a value of `a` on disk in file 0; open (active file 1, empty); merge of everything
+/// with the fault at call `at` OF THE MERGE (0 stat of the source, 1/2 creation of the merge data /
+/// hint file, 3 open of the source, 4 mmap, 5/6 write of the data / hint entry, 7/8 removal of the
+/// source hint / data file, 9 creation of the next active file); then a fault-free put of `a`, read
+/// back in the same process, a restart, read back again.  Decides: a failed merge is reported and
+/// later acknowledged operations read correctly in the running process and after a restart.
+pub(crate) fn fault_shape_m3(at: usize) {
+    mfs::__preexisting(dslot(0));
+    let va: u8 = kani::any();
+    lay_data(dslot(0), 0, K[0], Some(va));
+    let init: Model = [Some(va), None];
+    let mut sc = Sc::<0>::open(init, u64::MAX, false, T_ALL);
+    arm_fault(at, 0, 3);
+    let r = sc.s.w.merge();
+    assert!(mfs::__fs().fail_hit, "harness: the fault was not injected into the merge");
+    // removing a source that is already gone is tolerated by the code (NotFound); any other failing
+    // call must be reported
+    assert!(r.is_err(), "[C20] a file-system call failed on behalf of a merge, yet the merge reported success");
+    std::mem::forget(r);
+    kani::cover!(mfs::__fs().fail_kind == mfs::K_CREATE && mfs::__fs().fail_slot == dslot(3), "the creation of the next active file failed");
+    kani::cover!(mfs::__fs().fail_kind == mfs::K_UNLINK, "the removal of a merged file failed");
+    kani::cover!(mfs::__fs().fail_kind == mfs::K_WRITE, "a write to a merge output failed");
+    let v2: u8 = kani::any();
+    let r2 = sc.s.w.put(kb(K[0]), kb(v2));
+    assert!(r2.is_ok(), "[C20] an operation failed although no fault was injected into it");
+    std::mem::forget(r2);
+    match sc.s.r.get(kb(K[0])) {
+        Ok(g) => assert!(v1(&g) == Some(v2), "[C20] an acknowledged operation after a failed merge does not read back"),
+        Err(_) => assert!(false, "[C20] an acknowledged operation after a failed merge cannot be read"),
+    }
+    sc.m[0] = Some(v2);
+    fault_restart(sc, [None, None]);
+}
+
+/// Fault shape M4: empty directory; put a (the active file gets statistics, so a merge of
+/// everything selects and removes it); merge with the fault at call `at` of the merge; put a again,
+/// read back in the same process, restart, read back.
+pub(crate) fn fault_shape_m4(at: usize) {
+    let init: Model = [None, None];
+    let mut sc = Sc::<0>::open(init, u64::MAX, false, T_ALL);
+    let va: u8 = kani::any();
+    must(sc.s.w.put(kb(K[0]), kb(va)));
+    sc.m[0] = Some(va);
+    arm_fault(at, 0, 3);
+    let r = sc.s.w.merge();
+    assert!(mfs::__fs().fail_hit, "harness: the fault was not injected into the merge");
+    assert!(r.is_err(), "[C20] a file-system call failed on behalf of a merge, yet the merge reported success");
+    std::mem::forget(r);
+    kani::cover!(mfs::__fs().fail_kind == mfs::K_CREATE, "a creation failed");
+    let v2: u8 = kani::any();
+    let r2 = sc.s.w.put(kb(K[0]), kb(v2));
+    assert!(r2.is_ok(), "[C20] an operation failed although no fault was injected into it");
+    std::mem::forget(r2);
+    match sc.s.r.get(kb(K[0])) {
+        Ok(g) => assert!(v1(&g) == Some(v2), "[C20] an acknowledged operation after a failed merge does not read back"),
+        Err(_) => assert!(false, "[C20] an acknowledged operation after a failed merge cannot be read"),
+    }
+    sc.m[0] = Some(v2);
+    fault_restart(sc, [None, None]);
 }
 
 // ---- C12: hint files are only an accelerator
